@@ -492,7 +492,8 @@ register("C13", {
             "download holding the read lock; oracle = server-side window accounting (h2 + "
             "independent), exact upload bodies, deadlock and livelock detector, no time-out "
             "without a fault; a quarter of the uploads get their response head before the "
-            "request body has been received",
+            "request body has been received; downloads read completely, slowly or only in "
+            "part: the credit returned covers at least every body byte handed to a caller",
     "assumptions": ["a few response bodies beyond the client's 16 MiB + 65535 credit per run "
                     "(big-download family); uploads are bounded to a few multiples of the window"],
 }, [FlowFamily("flow-async", "asyncio", 2000, 40000),
